@@ -254,7 +254,7 @@ pub fn catalogue() -> Vec<(String, Vec<MLayer>)> {
 pub fn run(ctx: Arc<Ctx>) {
 	ctx.rule(
 		"catalogue: C10's 12 tiles + tiles around layer 'a' with an id key (ids as string / int64 / sint64 / uint64 / float / double with integral and fractional values, float vs double, unknown geometry type, duplicate keys/values, unused entries, untouched second layer) + all key tables of length <= 3 over {id,k}; \
-		 x 6 data tables (string ids, numeric ids as integers and decimals, zero-padded ids) x 2^3 options (replace, remove_non_matching, include_id) x layer name {a, absent} x source compression; reference join on the independently decoded form; plus decode -> encode of every catalogue tile through the repository's VectorTile; plus the bounded-exhaustive small-layer family (5 key tables x 4 value tables x feature lists with every tag list of <= 2 pairs; all 409) joined on key k under all 16 (options, layer name) configurations. \
+		 x 6 data tables (string ids, numeric ids as integers and decimals, zero-padded ids) x 2^3 options (replace, remove_non_matching, include_id) x layer name {a, absent} x source compression; reference join on the independently decoded form; plus decode -> encode of every catalogue tile through the repository's VectorTile; plus the bounded-exhaustive small-layer family (5 key tables x 4 value tables x feature lists with every tag list of <= 2 pairs; all 409) joined on key k under all 16 (options, layer name) configurations; plus data files in every documented CSV layout (quoted cells with separators / doubled quotes / line breaks / non-ASCII text, CRLF, blank lines, missing final line end: 32 layouts) and long tables whose cells of interest are cut at every byte by the 4096 / 8192 byte borders of the reader's buffer. \
 		 non-trivial = (tile, table, options) where the reference join changes at least one feature",
 	);
 	let cat = catalogue();
@@ -418,11 +418,147 @@ pub fn run(ctx: Arc<Ctx>) {
 		}
 	});
 	systematic(&ctx, &work.0);
+	csv_layouts(&ctx, &work.0, &cat);
 	ctx.sample(json!({"catalogue_size": cat.len(), "example_tile": cat[12].0, "tables": tabs.iter().map(|t| t.name).collect::<Vec<_>>()}));
 	ctx.outcome_n("pipeline configurations", jobs.len() as u64);
 	ctx.outcome_n("decode -> encode round trips", cat.len() as u64);
 	ctx.exhaustive(true);
 	drop(work);
+}
+
+
+/// Data files in every layout the CSV reader documents (quoted cells holding separators, doubled quotes, line breaks
+/// and non-ASCII text; CRLF line ends; blank lines; no final line end) and tables long enough for every kind of cell
+/// to be cut, byte by byte, by the borders of the reader's 4096-byte buffer - joined to the first id tile under two
+/// option sets. `cells` is the meaning of the text, the reference join works on it.
+fn csv_layouts(ctx: &Arc<Ctx>, work: &std::path::Path, cat: &[(String, Vec<MLayer>)]) {
+	let leak = |s: String| -> &'static str { Box::leak(s.into_boxed_str()) };
+	let quote = |c: &str| format!("\"{}\"", c.replace('"', "\"\""));
+	let mut files: Vec<(String, Table, String)> = vec![]; // (label, meaning, literal text)
+	let head: Vec<&'static str> = vec!["data_id", "note, with comma", "k"];
+	let rows: Vec<Vec<&'static str>> = vec![vec!["x1", "a, b", "say \"hi\""], vec!["x2", "plain", "two\nlines"], vec!["7", "\u{e9}\u{20ac}\u{1F600}", ""], vec!["unknown", "\"", "x,\"y\",z"]];
+	let meaning = Table { name: "quoted layout", header: head.clone(), rows: rows.clone() };
+	let render = |quote_all: bool, eol: &str, final_eol: bool, blank_lines: bool| -> String {
+		let mut t = String::new();
+		let cell = |c: &str| if quote_all || c.contains(',') || c.contains('"') || c.contains('\n') { quote(c) } else { c.to_string() };
+		t.push_str(&head.iter().map(|c| cell(c)).collect::<Vec<_>>().join(","));
+		for r in &rows {
+			t.push_str(eol);
+			if blank_lines {
+				t.push_str(eol);
+			}
+			t.push_str(&r.iter().enumerate().map(|(i, c)| if i == 0 && !quote_all { c.to_string() } else { cell(c) }).collect::<Vec<_>>().join(","));
+		}
+		if final_eol {
+			t.push_str(eol);
+		}
+		t
+	};
+	for quote_all in [false, true] {
+		for eol in ["\n", "\r\n"] {
+			for final_eol in [true, false] {
+				for blank in [false, true] {
+					// a quoted number would be ambiguous (text or number): the id column stays bare unless everything is
+					// quoted, and then the numeric id 7 is left out of the comparison by using a table without it
+					let mut m = meaning.clone();
+					if quote_all {
+						m.rows.retain(|r| r[0] != "7");
+					}
+					let mut text = render(quote_all, eol, final_eol, blank);
+					if quote_all {
+						// drop the row of the numeric id from the text as well
+						let rr: Vec<Vec<&'static str>> = rows.iter().filter(|r| r[0] != "7").cloned().collect();
+						let cellq = |c: &str| quote(c);
+						text = head.iter().map(|c| cellq(c)).collect::<Vec<_>>().join(",");
+						for r in &rr {
+							text.push_str(eol);
+							if blank {
+								text.push_str(eol);
+							}
+							text.push_str(&r.iter().map(|c| cellq(c)).collect::<Vec<_>>().join(","));
+						}
+						if final_eol {
+							text.push_str(eol);
+						}
+					}
+					files.push((format!("quote_all={quote_all} eol={eol:?} final_eol={final_eol} blank_lines={blank}"), m, text));
+				}
+			}
+		}
+	}
+	// long tables: filler rows of a fixed shape, then the rows that matter; the length of the first filler cell moves
+	// everything behind it across the buffer borders at 4096 and 8192
+	let tail_rows: Vec<Vec<&'static str>> = vec![vec!["x1", "a, \"b\" \u{e9}\u{20ac}\u{1F600}", "-12.5"], vec!["x2", "second\nline", "true"], vec!["7", "", "12345678"]];
+	let tail_text: String = tail_rows.iter().map(|r| format!("{},{},{}\r\n", r[0], quote(r[1]), r[2])).collect();
+	for border in [4096usize, 8192] {
+		for shift in 0..(tail_text.len() + 8) {
+			let mut text = String::from("data_id,note,k\n");
+			let mut m = Table { name: "long table", header: vec!["data_id", "note", "k"], rows: vec![] };
+			let mut i = 0;
+			while text.len() + 40 < border - tail_text.len() - 4 {
+				let (id, note) = (leak(format!("f{i}")), leak(format!("filler {i}")));
+				text.push_str(&format!("{id},{note},{i}\n"));
+				m.rows.push(vec![id, note, leak(i.to_string())]);
+				i += 1;
+			}
+			let want_len = border + 4 - shift;
+			if want_len > text.len() + tail_text.len() + 12 {
+				let pad = "p".repeat(want_len - text.len() - tail_text.len() - 10);
+				let padc = leak(pad);
+				text.push_str(&format!("fz,{padc},0\n"));
+				m.rows.push(vec!["fz", padc, "0"]);
+			}
+			text.push_str(&tail_text);
+			m.rows.extend(tail_rows.iter().cloned());
+			files.push((format!("long table, rows of interest end {shift} bytes before byte {}", border + 4), m, text));
+		}
+	}
+	let (tname, tile) = &cat[cat.iter().position(|(n, _)| n.starts_with("layer a with id key")).expect("id tile")];
+	let raw = mvt::encode_tile(tile);
+	let decoded = mvt::decode_tile(&raw).unwrap();
+	let (ctxr, fr, wpath): (&Ctx, _, _) = (ctx, &files, work.to_path_buf());
+	let (rawr, decr) = (&raw, &decoded);
+	par_for(files.len(), |fi| {
+		let (label, table, text) = &fr[fi];
+		let fname = format!("layout{fi}.csv");
+		std::fs::write(wpath.join(&fname), text).unwrap();
+		for o in [0u8, 7, 2] {
+			let opts = Opts { replace: o & 1 != 0, remove: o & 2 != 0, include_id: o & 4 != 0 };
+			let want = reference(decr, "a", "id", table, &opts);
+			let mut tiles = TileMap::new();
+			tiles.insert((4, 3, 2), rawr.clone());
+			let src = MemSource::new("s", tiles, TileFormat::PBF, TileCompression::Uncompressed);
+			let vpl = format!("from_container filename=\"mem:0\" | vectortiles_update_properties data_source_path=\"{fname}\" layer_name=\"a\" id_field_tiles=\"id\" id_field_data=\"data_id\" replace_properties={} remove_non_matching={} include_id={}", opts.replace, opts.remove, opts.include_id);
+			let case = json!({"kind": "csv layout", "tile": tname, "layout": label, "options": {"replace": opts.replace, "remove_non_matching": opts.remove, "include_id": opts.include_id}, "csv": if text.len() < 600 { text.clone() } else { format!("{} bytes", text.len()) }});
+			let rt = crate::memsource::runtime(1);
+			let fac = pipeline::factory(vec![src], &wpath);
+			ctxr.eval();
+			ctxr.transition(1);
+			let op = match pipeline::build_op(&rt, &fac, &vpl) {
+				Ok(o) => o,
+				Err(e) => {
+					ctxr.violation(&format!("update pipeline over a data file in a documented CSV layout cannot be built: {}", super::c01::norm_msg(&e)), &format!("{label}: {e}"), case);
+					continue;
+				}
+			};
+			match catch(|| rt.block_on(AnySrc::Op(op).lookup((4, 3, 2)))) {
+				Err(p) => ctxr.violation(&format!("update lookup panics at {}", panic_site(&p)), &format!("{label}: {p}"), case.clone()),
+				Ok(Err(e)) => ctxr.violation(&format!("update lookup fails: {}", super::c01::norm_msg(&format!("{e:#}"))), &format!("{label}: {e:#}"), case.clone()),
+				Ok(Ok(None)) => ctxr.violation("update stage drops a tile", label, case.clone()),
+				Ok(Ok(Some(b))) => match mvt::decode_tile(&b) {
+					Err(e) => ctxr.violation("output is not a decodable vector tile in the declared compression", &format!("{label}: {e}"), case.clone()),
+					Ok(got) => {
+						if let Some((clause, why)) = compare(&got, &want, "a") {
+							ctxr.violation(&format!("{clause} (data file layout)"), &format!("{label}, {opts:?}: {why}"), case.clone());
+						}
+					}
+				},
+			}
+			ctxr.trace(1);
+			ctxr.nontrivial(fnv_str(&format!("layout{fi}{o}")));
+		}
+	});
+	ctx.outcome_n("data file layouts (quoting x line ends x blank lines; long tables cut by the read buffer at every byte)", files.len() as u64);
 }
 
 /// The bounded-exhaustive small layers of `mvt::small_layers` (every key/value table layout, every tag
